@@ -566,6 +566,17 @@ def rule_capture_src(ctx):
             ctx.check(ok, "get_all_moves:captured-piece-source", "captured_piece = get_piece((start.rank, dest.file)) for en passant, get_piece(dest) otherwise", cb.where(0),
                       bad_what="captured_piece is looked up at %s (en passant must look at (start.rank, dest.file), everything else at dest)" % rows)
     ctx.check(n == 1, "get_all_moves:one-annotation-closure", "one closure annotates captures", b.where(0), bad_what="%d closures set captured_piece" % n)
+    # ... and the annotation is all that happens to a generated move on its way out: every other field (the flags make_move
+    # reads, start, dest, piece) leaves get_all_moves as the generator built it
+    touched = []
+    for cb in ix.closures_of(B_ + "get_all_moves") + [b]:
+        for bi, i, s in cb.stmts():
+            fp = fields_of(s["lhs"])
+            root_ty = cb.locals[s["lhs"]["l"]]["ty"].lstrip("&").replace("mut ", "")
+            if fp and root_ty == "board::ply::Ply" and fp[0] != "captured_piece":
+                touched.append((fp[0], s.get("line")))
+    ctx.check(not touched, "get_all_moves:annotates-only-captured-piece", "get_all_moves changes no field of a generated move except captured_piece", b.where(0),
+              bad_what="get_all_moves rewrites %s of the generated moves: what make_move records (en-passant file, castling, clocks) no longer follows the generator's flags" % touched[:4])
     # range filter in Kind::get_moveset
     kb = ctx.body("board::piece::Kind::get_moveset")
     flt = ix.closures_of("board::piece::Kind::get_moveset")
@@ -652,7 +663,73 @@ def rule_ply_builder(ctx):
               bad_what="build() does not copy field for field: %s" % (wrong or expr_str(r)[:100]))
 
 
-RULES = [("ply-builder", rule_ply_builder), ("filter", rule_filter), ("probe", rule_probe), ("check-mirror", rule_check_mirror), ("castle-pre", rule_castle_pre), ("castle-masks", rule_castle_masks),
+SQ_ADD_DELTA = "<board::square::Square as std::ops::Add<board::square::Delta>>::add"
+SQ_ADD_DIR = "<board::square::Square as std::ops::Add<board::square::Direction>>::add"
+
+
+def rule_square_arith(ctx):
+    """`square + delta` is coordinate-wise addition that leaves the board when the sum does: every generator steps with it
+    and relies on the on-board filter to drop what fell off (a sum reduced mod 8 comes back in on the other side).
+    `square + direction` adds the direction's own unit step."""
+    from . import c06, cases
+    ix = ctx.ix
+    b = ctx.body(SQ_ADD_DELTA)
+    r = mir.strip_copies(ctx.sym(b).local(0))
+    bad = []
+    und = None
+    if r[0] == "agg" and r[1] == "board::square::Square" and len(r[3]) == 2:
+        names = r[4] if len(r) > 4 and r[4] else ("rank", "file")
+        comp = dict(zip(names, r[3]))
+        a1, a2 = b.local_name(1), b.local_name(2)
+        for rk in range(8):
+            for fl in range(8):
+                for dr in range(-2, 3):
+                    for df in range(-2, 3):
+                        env = {"%s.rank" % a1: rk, "%s.file" % a1: fl, "%s.rank_delta" % a2: dr, "%s.file_delta" % a2: df, "__signed__": True}
+                        try:
+                            got = (c06.fold_tree(ix, comp["rank"], env), c06.fold_tree(ix, comp["file"], env))
+                        except c06.Undef as e:
+                            und = str(e)
+                            break
+                        except KeyError:
+                            und = "fields of the result are not (rank, file)"
+                            break
+                        for g, want in zip(got, (rk + dr, fl + df)):
+                            okc = (g == want) if 0 <= want < 8 else not (isinstance(g, int) and 0 <= g < 8)
+                            if not okc and len(bad) < 4:
+                                bad.append(((rk, fl), (dr, df), got))
+                    if und:
+                        break
+                if und:
+                    break
+            if und:
+                break
+    else:
+        und = "the result is not a Square built from two coordinate expressions"
+    ctx.check(und is None and not bad, "Square+Delta:coordinate-wise-and-off-board-stays-off", "Square + Delta adds coordinate-wise on 8x8 and yields an off-board square exactly when a coordinate leaves 0..8 (1600 cases folded)", b.where(0),
+              bad_what=("Square + Delta cannot be folded (%s): cannot decide" % und) if und else
+              "Square + Delta is wrong for ((rank, file), (d rank, d file)) -> (rank, file): %s -- a step off the board must not land on the board (it would pass the on-board filter as a move to the other edge)" % bad)
+    d = ctx.body(SQ_ADD_DIR)
+    dparam = [d.local_name(l) for l in range(1, d.arg_count + 1) if d.locals[l]["ty"].endswith("square::Direction")]
+    table = {}
+    for name in G.DIRS:
+        run = cases.run(ix, d, {dparam[0]: cases.enum_val(ix, "board::square::Direction", name)}) if dparam else None
+        rets = [p for p in run.paths if p.end == "return"] if run else []
+        got = None
+        if run is not None and not run.overflow and len(rets) == 1:
+            calls = [e for e in rets[0].events if e[0] == "call"]
+            if len(calls) == 1 and calls[0][2] == SQ_ADD_DELTA and len(calls[0][3]) == 2:
+                dl = mir.strip_copies(calls[0][3][1])
+                if dl[0] == "agg" and len(dl[3]) == 2 and all(x[0] == "const" for x in dl[3]) and mir.strip_copies(calls[0][3][0]) == ("arg", d.local_name(1)):
+                    nm = dl[4] if len(dl) > 4 and dl[4] else ("rank_delta", "file_delta")
+                    vals = dict(zip(nm, [x[1] for x in dl[3]]))
+                    got = (vals.get("rank_delta"), vals.get("file_delta"))
+        table[name] = got
+    ctx.check(table == G.DIRS, "Square+Direction:unit-steps", "Square + Direction adds the unit step of that direction (8 directions)", d.where(0),
+              bad_what="Square + Direction steps by %s (expected %s)" % ({k: v for k, v in table.items() if v != G.DIRS[k]}, {k: G.DIRS[k] for k, v in table.items() if v != G.DIRS[k]}))
+
+
+RULES = [("square-arith", rule_square_arith), ("ply-builder", rule_ply_builder), ("filter", rule_filter), ("probe", rule_probe), ("check-mirror", rule_check_mirror), ("castle-pre", rule_castle_pre), ("castle-masks", rule_castle_masks),
          ("castle-moves", rule_castle_moves), ("pawn-table", rule_pawn_table), ("dispatch", rule_dispatch), ("capture-src", rule_capture_src), ("square-loops", rule_square_loops)]
 # what the clauses above take for granted, decided here as well: the attack tables the generators read (C06), make/unmake
 # leaving the position intact around the legality probe (C02), and the bookkeeping that later move generation depends on
